@@ -35,7 +35,7 @@ type subRec struct {
 	subscribed  bool
 	unsubPlan   bool
 	unsubTwice  bool
-	subCancel   int // >= 0: the Subscribe call's own context ends that many scheduling points into it
+	subCancel   int  // >= 0: the Subscribe call's own context ends that many scheduling points into it
 	stopRecv    bool // stop receiving as soon as Unsubscribe returned (C09 family)
 	slow        int  // milliseconds (fake clock) this subscriber takes per message
 	got         []delivery
